@@ -44,6 +44,10 @@ def generate(prop, seed, tier):
     rec = g.choice(['none', 'linear', 'any'])
     spec = G.gen_spec(g, recursion=rec, weights=g.choice(['small', 'pos', 'zeros']), max_nodes=4, max_edges=3, max_dom=2 if rec == 'any' else 3,
                       explicit_ids=g.choice(['mixed', 'none', 'all']), min_dom=2 if vit else 1, repeat_ext=not vit, shapes=True)
+    if vit and g.random() < 0.3:
+        # mutually recursive nonterminals whose best derivation runs through other members of the component: the arg-max
+        # needs several rounds, so a starved viterbi query really differs from a full one
+        spec = G.ring_chord_spec(g, 'prob', vec=True, min_sz=2)
     if vit:
         G.attach_edgeless(spec, g, 'pos')
         G.ensure_internal_node(spec, g, 'pos')
